@@ -118,6 +118,8 @@ def judge(ctx, solver, A, cond, iterative_tol, allow_zero_col, rng, label, super
                 b = rng.standard_normal(n if k is None else (n, k))
                 if cb:
                     b = b + 1j * rng.standard_normal(b.shape)
+                bscale = 10.0 ** rng.uniform(-6, 3)     # the requested accuracy is relative: any magnitude of rhs
+                b = b * bscale
                 if shape == "blkdep":
                     b[:, 2] = 2 * b[:, 0] - b[:, 1]
                     b[:, 3] = 0 if allow_zero_col else -b[:, 0]
@@ -127,6 +129,7 @@ def judge(ctx, solver, A, cond, iterative_tol, allow_zero_col, rng, label, super
                     x0 = rng.standard_normal(b.shape)
                     if cb or cA:
                         x0 = x0 + 1j * rng.standard_normal(b.shape)
+                    x0 = x0 * bscale / max(nM / np.sqrt(n), 1e-300)    # a guess of the magnitude of the solution
                     ctx.count("x0_solves")
                 bk = b.copy()
                 with warnings.catch_warnings():
@@ -197,6 +200,31 @@ def run_table(case, ctx):
         warnings.simplefilter("ignore")
         solver.update(As2)
     j += judge(ctx, solver, As2, cond * 16, it, allow_zero, rng, cfg + "+update", slu)
+    if type(solver).__name__ == "SolverDenseCholesky" and n >= 2:
+        # the documented LDL fall-back: the same solver object sees positive definite and indefinite (positive diagonal)
+        # Hermitian matrices in both orders
+        cp = cls in ("hpd", "herm")
+        seq = ["hpd" if cp else "spd", "posdiag-indef", "hpd" if cp else "spd"] if rng.random() < 0.5 else \
+            ["posdiag-indef", "hpd" if cp else "spd", "posdiag-indef"]
+        for c3 in seq:
+            if c3 == "posdiag-indef":
+                B = matgen.make(rng, "herm" if cp else "sym", n, cond=min(cond, 100.0), scale=scale)
+                B = B - np.diag(np.diag(B)) + np.diag(np.abs(np.diag(B)) + 0.05 * np.abs(B).sum(axis=1))
+                if np.all(np.linalg.eigvalsh(B) > 0):   # still definite: push one eigenvalue through zero
+                    w_, v_ = np.linalg.eigh(B)
+                    B = B - 1.5 * w_[0] * np.outer(v_[:, 0], v_[:, 0].conj())
+                    if not np.all(np.real(np.diag(B)) > 0):
+                        continue
+            else:
+                B = matgen.make(rng, c3, n, cond=min(cond, 1e3), scale=scale)
+            cB = np.linalg.cond(B)
+            if cB > 1e6:
+                continue
+            with warnings.catch_warnings():
+                warnings.simplefilter("ignore")
+                solver.update(B)
+            ctx.count("cholesky_definiteness_switches")
+            j += judge(ctx, solver, B, cB, it, allow_zero, rng, cfg + "+switch:" + c3, slu)
     return {"key": f"{cfg}/{cls}/{st}", "nontrivial": j >= 12,
             "obs": {"n": n, "cond": cond, "scale": scale, "solver": type(solver).__name__, "judged": j, "max_rel_residual": ctx.obs.get("max_rel")}}
 
